@@ -4,6 +4,7 @@ import (
 	"fmt"
 	"runtime"
 	"strconv"
+	"strings"
 	"time"
 
 	fileseq "github.com/justinfx/gofileseq/v2"
@@ -112,6 +113,10 @@ func genHandles(r *Rand, n int, thorough bool, emit func(string)) {
 			emit(fmt.Sprintf("hstress %s %d %d %d %d", sel, r.Range(2, 8), r.Range(1, 8), r.Range(50, 3000), r.Range(1, 1<<30)))
 			continue
 		}
+		if r.Chance(1, 6) {
+			emit(genHSched(r, thorough))
+			continue
+		}
 		k := r.Range(1, 24)
 		toks := make([]string, 0, k)
 		created := 0
@@ -138,6 +143,38 @@ func genHandles(r *Rand, n int, thorough bool, emit func(string)) {
 		}
 		emit("handles " + sel + " " + joinSp(toks))
 	}
+}
+
+// genHSched: a scenario for the deterministic scheduler — 2-4 threads, 1-2 shared handles,
+// scripts of 0-5 owner operations (an empty script = only the final release), on one table or
+// (sel b) alternating over both tables
+func genHSched(r *Rand, thorough bool) string {
+	threads := r.Range(2, 4)
+	nh := r.Range(1, 2)
+	var scripts []string
+	for g := 0; g < threads; g++ {
+		k := r.Range(0, 5)
+		var ops []string
+		for j := 0; j < k; j++ {
+			switch r.Intn(6) {
+			case 0:
+				ops = append(ops, "A")
+			case 1:
+				ops = append(ops, "L")
+			default:
+				ops = append(ops, r.Pick([]string{"I", "D", "D", "G"})+strconv.Itoa(r.Intn(nh)))
+			}
+		}
+		if len(ops) == 0 {
+			ops = []string{""}
+		}
+		scripts = append(scripts, strings.Join(ops, "."))
+	}
+	ns := 150
+	if thorough {
+		ns = 1500
+	}
+	return fmt.Sprintf("hsched %s %d %d %s %d %d", r.Pick([]string{"f", "s", "b", "b"}), threads, nh, strings.Join(scripts, "/"), ns, r.Range(1, 1<<30))
 }
 
 func joinSp(ss []string) string {
